@@ -6,7 +6,7 @@ From Coq Require Import List NArith ZArith.
 From Muscle Require Import Refl.Base Refl.BaseProofs Refl.Tree Refl.TreeProofs Refl.Matcher Refl.MatcherProofs
      Refl.Traverse Refl.TraverseSpec Refl.Session Refl.Server Refl.ServerProofs Refl.RefcountProofs
      Refl.Concrete Refl.Examples Refl.Mirror Refl.MirrorBase Refl.MirrorCmd Refl.MirrorFrame Refl.MirrorQuiet Refl.MirrorTail Refl.MirrorProofs
-     Refl.MirrorCheck Refl.MirrorExamples Refl.Params Refl.ParamsProofs Refl.ParamsExamples.
+     Refl.MirrorCheck Refl.MirrorStale Refl.MirrorExamples Refl.Params Refl.ParamsProofs Refl.ParamsExamples.
 
 (* refcount_inv (full): in every reachable state, for every node n and session id s, the node's subscriber table
    holds for s exactly the number of s's subscription paths that match n (GetMatchCount of s's _subscriptions;
@@ -85,9 +85,10 @@ Proof. exact ex1_nontrivial. Qed.
    payload changes across a filter, any max-items-per-update, batches): the client of o holds at every path outside o's
    own nodes exactly the node's current payload if one of o's subscriptions (path and filter) accepts it, and nothing
    otherwise -- none missing, none stale, none extra.
-   FULL statement not yet proved: quiet set/remove on nodes the observer's subscription paths do reach (the statement would
-   then be restricted to the nodes whose last change was announced), a SUBSCRIBE: or GETDATA between two unsubscribes of
-   one BATCH of the observer, reflect-to-self, ordered indices. *)
+   Quiet set/remove on nodes the observer's subscription paths do reach: C04_mirror_converges_announced below (the
+   statement restricted to the paths no quiet command changed).
+   FULL statement not yet proved: a SUBSCRIBE: or GETDATA between two unsubscribes of one BATCH of the observer,
+   a command that mixes quiet and announced changes of the tree seen by the observer, reflect-to-self, ordered indices. *)
 Theorem C04_mirror_converges_partial :
   forall (M : MatchOps) (L : MatchLaws M) (fx : fixes),
   fx_guard fx = true -> fx_overlap fx = true -> fx_push fx = true ->
@@ -100,6 +101,24 @@ Theorem C04_mirror_converges_partial :
   mirror_get (c_mirror c) q = expected (sv_tree (w_srv (world_run fx evs empty_world))) ss q.
 Proof. exact @mirror_converges_partial. Qed.
 Print Assumptions C04_mirror_converges_partial.
+
+(* mirror_converges_announced: quiet changes that the observer CAN see.  Every event is either as above (ev_ok, ev_clean)
+   or a command of another session made of quiet SETDATA / REMOVEDATA only (quiet_other; nobody is told anything).  The
+   paths whose payload or existence such commands changed are collected along the run (stale_run); at every other path
+   outside o's own nodes the mirror is exact at the quiescent point -- none missing, none stale, none extra there.  (Without
+   quiet_other events the collection is empty and this is mirror_converges_partial.) *)
+Theorem C04_mirror_converges_announced :
+  forall (M : MatchOps) (L : MatchLaws M) (fx : fixes),
+  fx_guard fx = true -> fx_overlap fx = true -> fx_push fx = true ->
+  forall (o : sid) (evs : list event),
+  wf_wrun fx empty_world evs -> oks_wrun fx o empty_world evs -> small (run_budget evs) ->
+  forall (c : client) (ss : session),
+  In c (w_clients (world_run fx evs empty_world)) -> c_id c = o ->
+  get_session (w_srv (world_run fx evs empty_world)) o = Some ss ->
+  forall q : path, own_node ss q = false -> pmem q (stale_run fx o empty_world evs nil) = false ->
+  mirror_get (c_mirror c) q = expected (sv_tree (w_srv (world_run fx evs empty_world))) ss q.
+Proof. exact @mirror_converges_announced. Qed.
+Print Assumptions C04_mirror_converges_announced.
 
 (* the same for histories as they are on the wire (Refl/Params.v): PR_COMMAND_REMOVEPARAMETERS works on parameter NAMES, so
    an unsubscribe under a spelling the client did not subscribe with ("SUBSCRIBE:x" for "SUBSCRIBE:/*/*/x") removes nothing;
@@ -116,6 +135,38 @@ Theorem C04_mirror_converges_wire :
   mirror_get (c_mirror c) q = expected (sv_tree (w_srv w)) ss q.
 Proof. exact @mirror_converges_wire. Qed.
 Print Assumptions C04_mirror_converges_wire.
+
+(* ... and with premises that are tests of the events as they are on the wire (MirrorCheck.v: ev_ok_b -- no quiet flag on a
+   change of the tree by another session, no quiet SUBSCRIBE: of o; ev_clean_b -- o sends no explicit GETDATA, distinct
+   non-empty SUBSCRIBE: paths per Message, unsubscribes at the head / in the tail of a BATCH) *)
+Theorem C04_mirror_converges_wire_checked :
+  forall (M : MatchOps) (L : MatchLaws M) (fx : fixes),
+  fx_guard fx = true -> fx_overlap fx = true -> fx_push fx = true ->
+  forall (evs : list event) (o : sid),
+  wf_prun fx empty_pworld evs -> forallb (ev_ok_b o) evs = true -> forallb (ev_clean_b o) evs = true ->
+  small (run_budget evs) ->
+  let w := pw_world (pworld_run fx evs empty_pworld) in
+  forall (c : client) (ss : session),
+  In c (w_clients w) -> c_id c = o -> get_session (w_srv w) o = Some ss ->
+  forall q : path, own_node ss q = false ->
+  mirror_get (c_mirror c) q = expected (sv_tree (w_srv w)) ss q.
+Proof. exact @mirror_converges_wire_checked. Qed.
+Print Assumptions C04_mirror_converges_wire_checked.
+
+(* mirror_converges_announced on the wire (parameter names): the conditions are read off the lowered history *)
+Theorem C04_mirror_converges_wire_announced :
+  forall (M : MatchOps) (L : MatchLaws M) (fx : fixes),
+  fx_guard fx = true -> fx_overlap fx = true -> fx_push fx = true ->
+  forall (o : sid) (evs : list event),
+  let evs' := lower_run fx empty_pworld evs in
+  wf_wrun fx empty_world evs' -> oks_wrun fx o empty_world evs' -> small (run_budget evs') ->
+  let w := pw_world (pworld_run fx evs empty_pworld) in
+  forall (c : client) (ss : session),
+  In c (w_clients w) -> c_id c = o -> get_session (w_srv w) o = Some ss ->
+  forall q : path, own_node ss q = false -> pmem q (stale_run fx o empty_world evs' nil) = false ->
+  mirror_get (c_mirror c) q = expected (sv_tree (w_srv w)) ss q.
+Proof. exact @mirror_converges_wire_announced. Qed.
+Print Assumptions C04_mirror_converges_wire_announced.
 
 (* the repairs are necessary: with any one switched off, a clean history violates the statement
    (witnesses replayed on the real server: findings F12, F37, F38) *)
@@ -201,3 +252,19 @@ Example C04_mirror_batch_unsubscribe_first_nontrivial :
   /\ option_map (fun c => length (c_mirror c)) (find (fun c => N.eqb (c_id c) 0%N) (w_clients (world_run all_fixed (firstn 4 exu) empty_world))) = Some 3%nat
   /\ option_map (fun c => length (c_mirror c)) (find (fun c => N.eqb (c_id c) 0%N) (w_clients (world_run all_fixed exu empty_world))) = Some 1%nat.
 Proof. exact exu_nontrivial. Qed.
+
+(* non-vacuity of mirror_converges_announced: session 1 changes ab and creates ac quietly where the observer watches; the
+   mirror is exact at ad (changed loudly afterwards) and NOT at ab, ac: the restriction to the uncollected paths is needed *)
+Example C04_announced_premises_satisfiable :
+  wf_wrun_b all_fixed empty_world exs = true /\ forallb (ev_oks_b 0%N) exs = true
+  /\ stale_run all_fixed 0%N empty_world exs nil = ((1 :: 11 :: 21 :: nil) :: (1 :: 11 :: 21 :: nil) :: (1 :: 11 :: 22 :: nil) :: nil)%N.
+Proof. exact exs_premises. Qed.
+Example C04_announced_checks_imply_hypotheses :
+  forall (M : MatchOps) (L : MatchLaws M) (fx : fixes) o evs w, forallb (ev_oks_b o) evs = true -> oks_wrun fx o w evs.
+Proof. exact @oks_wrun_b_spec. Qed.
+Example C04_announced_nontrivial :
+  holds_at (world_run all_fixed exs empty_world) 0%N (1 :: 11 :: 20 :: nil)%N = true
+  /\ holds_at (world_run all_fixed exs empty_world) 0%N (1 :: 11 :: 21 :: nil)%N = false
+  /\ holds_at (world_run all_fixed exs empty_world) 0%N (1 :: 11 :: 22 :: nil)%N = false
+  /\ option_map (fun c => length (c_mirror c)) (find (fun c => N.eqb (c_id c) 0%N) (w_clients (world_run all_fixed exs empty_world))) = Some 2%nat.
+Proof. exact exs_nontrivial. Qed.
